@@ -200,6 +200,7 @@ type session struct {
 	holds int
 	extra int          // extra bytes a handler adds to its result (reply larger than the request)
 	frames [2][][]byte // frames written by each endpoint, in order
+	slowReply int       // endpoint whose first reply stalls mid-frame
 	shared bool         // every caller's context derives from ONE tagged parent context
 	nwr    [2]int       // Write calls seen per endpoint
 	wfail  [2]int       // index of the Write call that fails on each endpoint (-1: none); the connection stays up
@@ -279,6 +280,17 @@ func (s *session) newEndpoint(id int, c *simConn) *endpoint {
 	c.onWritten = func(n, total int) {
 		if n != total {
 			s.r.ev("wrp %d %d %d", id, n, total)
+		}
+	}
+	if s.slowReply == id {
+		first := true
+		c.slowAt = func(p []byte) (int, time.Duration) {
+			pl := prefixLen(p)
+			if first && len(p) > pl+8 && p[pl] == 0x94 && p[pl+1] == 0x01 {
+				first = false
+				return pl + 4, 7 * time.Second
+			}
+			return 0, 0
 		}
 	}
 	c.onResult = func(err error) {
@@ -515,12 +527,13 @@ type sessPlan struct {
 	stallRx int      // endpoint whose receive loop is held back for the first virtual seconds (-1: none)
 	shared  bool     // callers derive their contexts from one tagged parent
 	wfail   [2]int   // Write call that fails per endpoint (-1: none)
+	slowReply int    // endpoint whose FIRST reply reaches the wire in two parts, seconds apart (-1: none)
 	lazyFin bool     // callers about to finish their records run only when nothing else can (a reply that arrives
 	                 // while a cancelled call is still winding up is then received before its record is finished)
 }
 
 func genPlan(g *prng, flavour string) sessPlan {
-	p := sessPlan{max: 1 << 20, faultAt: -1, forceAt: -1, observe: true, stallRx: -1, wfail: [2]int{-1, -1}}
+	p := sessPlan{max: 1 << 20, faultAt: -1, forceAt: -1, observe: true, stallRx: -1, wfail: [2]int{-1, -1}, slowReply: -1}
 	p.shared = g.chance(1, 3)
 	p.lazyFin = g.chance(1, 4)
 	n := 1 + g.intn(4)
@@ -618,6 +631,21 @@ func genPlan(g *prng, flavour string) sessPlan {
 			// a call to a protocol that is being registered at that very time
 			p.ops = append(p.ops, sessOp{caller: len(p.ops), ep: 1 - (len(p.inject) % 2), kind: "call", method: "lecho", nonce: 950})
 		}
+	case "slowreply":
+		// a reply stalls in the middle of its frame for longer than the session takes to settle, while the context of
+		// another call of the same endpoint ends: that call must return all the same
+		ep := g.intn(2)
+		p.ops = []sessOp{
+			{caller: 0, ep: ep, kind: "call", method: "echo", nonce: 100, pad: 40 + g.intn(40)},
+			{caller: 1, ep: ep, kind: []string{"call", "callc"}[g.intn(2)], method: "wait", nonce: 107, ctype: 1,
+				timeout: time.Second},
+		}
+		if g.chance(1, 2) {
+			p.ops[1].timeout = 0
+			p.ops[1].cancel = true
+		}
+		p.slowReply = 1 - ep
+		p.observe = g.chance(1, 2)
 	case "wfail":
 		// one Write fails on a connection that stays up; notifications and quick calls follow on the same endpoint
 		ep := g.intn(2)
@@ -684,7 +712,7 @@ func runSession(g *prng, p sessPlan, script []string) (hist []string, trace []st
 			"dispatch.handleCancel#0.call:RecordAndFinish": true}
 	}
 	s := &session{r: r, max: p.max, hctx: map[string]context.Context{}, extra: p.extra, shared: p.shared,
-		wfail: p.wfail, done: map[int]bool{}}
+		wfail: p.wfail, done: map[int]bool{}, slowReply: p.slowReply}
 	baseline := libGoroutines()
 	a, b := newSimPair(p.wireCap)
 	if p.stallRx >= 0 {
@@ -860,6 +888,12 @@ func runSession(g *prng, p sessPlan, script []string) (hist []string, trace []st
 		r.advance(time.Second)
 	}
 	r.ev("settled")
+	if p.slowReply >= 0 {
+		// let the stalled frame complete before anything is torn down
+		for i := 0; i < 5; i++ {
+			r.advance(time.Second)
+		}
+	}
 	if p.stallRx >= 0 {
 		// the stalled peer starts reading again: let the backlog drain before anything is torn down
 		r.holds = map[string]func(int) bool{}
@@ -964,7 +998,7 @@ func runSession(g *prng, p sessPlan, script []string) (hist []string, trace []st
 
 func init() {
 	verifModes["session"] = func(c *vctx) {
-		flavours := strings.Split(c.envOr("VERIF_FLAVOURS", "plain,close,limit,hostile,faultat,burst,slowpeer,wfail"), ",")
+		flavours := strings.Split(c.envOr("VERIF_FLAVOURS", "plain,close,limit,hostile,faultat,burst,slowpeer,wfail,slowreply"), ",")
 		leaks := 0
 		var totalSteps int
 		var faBase *sessPlan
